@@ -11,7 +11,7 @@ From Coq Require Import ZArith List Bool.
 From Low Require Import Model.Size Spec.SizeSpec Proofs.SizeProofs.
 From Low Require Import Model.SizeFmt Model.SizeStat Spec.SizeStatSpec Proofs.SizeStatProofs.
 From Coq Require Import Permutation.
-From Low Require Import Proofs.SizeStatOrderProofs.
+From Low Require Import Proofs.SizeStatOrderProofs Proofs.SizeFmtProofs.
 From Low Require Import Model.TypeHelper Spec.TypeHelperSpec Proofs.TypeHelperProofs.
 From Low Require Import Model.SizeGraph Spec.SizeGraphSpec Proofs.SizeGraphProofs.
 Import ListNotations.
@@ -154,6 +154,24 @@ Theorem C20_Stat_sorted_map_order : forall ty kvs kvs' depth maxItem o,
 Proof. exact Stat_sorted_map_order. Qed.
 Print Assumptions C20_Stat_sorted_map_order.
 
+(** the average of a header line: with T the printed number in thousandths, s the size, n = AvgOf,
+    unit = unit_num / unit_den = 2^k (1 when AvgUnit = 0) and x = s / (n * unit) the exact quotient,
+        | T / 1000 - x |  <=  1/2000  +  x / 2^53
+    i.e. right to half a unit of the third decimal, plus the rounding of the one float64 division
+    (stated multiplied out by 2000 * 2^53 * n * unit_num; the model of the float arithmetic is exact for
+    s, n < 2^53, which is where float64(s) and float64(n) are exact) *)
+Theorem C20_Stat_avg_accuracy : forall s n k, 0 <= s -> 0 < n ->
+  let T := avg_thousandths s n k in
+  Z.abs (2 * 2 ^ 53 * T * n * unit_num k - 2000 * 2 ^ 53 * s * unit_den k)
+  <= 2 ^ 53 * n * unit_num k + 2000 * s * unit_den k.
+Proof. exact avg_accuracy. Qed.
+Print Assumptions C20_Stat_avg_accuracy.
+
+(** the digits printed for a size denote that size *)
+Theorem C20_Stat_decimal : forall n, 0 <= n < 10 ^ 40 -> digits_value (dec n) = n.
+Proof. exact dec_denotes. Qed.
+Print Assumptions C20_Stat_decimal.
+
 (** non-vacuity: struct{a []int32 (3 elements); p interface{} (nil); m map (1 entry)}, depth 2, maxItem 2:
     8 lines (10 without limits); the third element of the slice is cut by maxItem *)
 Example C20_Stat_nonvacuous :
@@ -167,7 +185,9 @@ Example C20_Stat_nonvacuous :
   length (spec_lines (Some v) (-1) 100 no_opt) = 10%nat /\
   nth 3 (spec_lines (Some v) 2 2 no_opt) [] = [32; 32; 32; 32; 32; 32; 32; 32; 49; 58; 32; 105; 51; 50; 58; 32; 52] /\
   StatText (Some i32) 5 5 {| avgOf := 3; avgUnit := Some (-3) |} =
-    Some [105; 51; 50; 58; 32; 52; 32; 47; 110; 32; 61; 32; 49; 48; 46; 54; 54; 55].
+    Some [105; 51; 50; 58; 32; 52; 32; 47; 110; 32; 61; 32; 49; 48; 46; 54; 54; 55] /\
+  avg_thousandths 4 3 (Some (-3)) = 10667 /\ avg_thousandths 1 16 None = 62 /\ avg_thousandths 3 16 None = 188 /\
+  dec 658 = [54; 53; 56].
 Proof. vm_compute. repeat split; reflexivity. Qed.
 
 (** ------------------------------------------------------------------------
